@@ -785,5 +785,6 @@ func (c *TermCtx) Query(asserts []*Term, wantModel bool, modelTerms []*Term) str
 			sb.WriteString("))\n")
 		}
 	}
-	return sb.String()
+	// "str.*" are theory symbols in cvc5; ours are uninterpreted
+	return strings.ReplaceAll(sb.String(), "str.", "gostr.")
 }
